@@ -1,11 +1,139 @@
 /-
-  C11 — per-node metadata matches the structure (theorems are added below as they are proved).
+  C11 — per-node metadata matches the structure.
+
+  `relabel g v` (Model/Labels.lean) is the model of `relabel_nodes` on a fresh value; the
+  specification is the flat traversal `nodesSpec` / `dttSpec` / `weightedSpec` / `typeCountSpec`.
+
+  Hypothesis `ArgsMatchTerminality g v` (Lemmas/Labels.lean): every instance, anywhere in `v`, of
+  a class that the grammar treats as a terminal has no constructor arguments.  `relabel_nodes`
+  returns at once on such an instance and never looks at its arguments, whereas the traversal
+  does, so without the hypothesis three of the four equalities are false
+  (`C11_terminal_args_witness`).  Programs of the grammar satisfy it: a class is a terminal of the
+  grammar exactly when it is concrete and has no fields.
 -/
 import GEVerif.Model.Labels
+import GEVerif.Lemmas.Labels
 
 namespace GEVerif.C11
 open GEVerif
 
-theorem C11_placeholder : True := trivial
+/-! ### 1. The fold equals the flat-traversal specification -/
+
+theorem C11_dtt_spec (g : Grammar) (v : Val) : (relabel g v).dtt = dttSpec g v :=
+  relabel_dtt_eq g v
+
+theorem C11_nodes_spec (g : Grammar) (v : Val) (h : ArgsMatchTerminality g v) :
+    (relabel g v).nodes = nodesSpec g v :=
+  relabel_nodes_eq g v h
+
+theorem C11_weighted_spec (g : Grammar) (v : Val) (h : ArgsMatchTerminality g v) :
+    (relabel g v).weighted = weightedSpec g v :=
+  relabel_weighted_eq g v h
+
+theorem C11_types_spec (g : Grammar) (v : Val) (h : ArgsMatchTerminality g v) :
+    ∀ k, lookupCount (relabel g v).types k = typeCountSpec v k := by
+  intro k
+  rw [relabel_lookup_eq_total, relabel_total_eq g k v h]
+
+/-- The labels of EVERY sub-value (nested nodes, nodes inside lists and tuples, the lists
+themselves) equal the specification evaluated on that sub-value. -/
+theorem C11_every_node (g : Grammar) (v : Val) (h : ArgsMatchTerminality g v) :
+    ∀ x ∈ v.subvalues,
+      (relabel g x).nodes = nodesSpec g x ∧
+      (relabel g x).dtt = dttSpec g x ∧
+      (relabel g x).weighted = weightedSpec g x ∧
+      ∀ k, lookupCount (relabel g x).types k = typeCountSpec x k := by
+  intro x hx
+  have hx' : ArgsMatchTerminality g x := h.sub hx
+  exact ⟨C11_nodes_spec g x hx', C11_dtt_spec g x, C11_weighted_spec g x hx', C11_types_spec g x hx'⟩
+
+/-- In particular the elements of a list field: `Block([e₁, …])` labels every `eᵢ` correctly. -/
+theorem C11_list_elements (g : Grammar) (c d e d' e' : Nat) (vs : List Val)
+    (h : ArgsMatchTerminality g (.node c d e [.list d' e' vs])) :
+    ∀ x ∈ vs,
+      (relabel g x).nodes = nodesSpec g x ∧
+      (relabel g x).dtt = dttSpec g x ∧
+      (relabel g x).weighted = weightedSpec g x ∧
+      ∀ k, lookupCount (relabel g x).types k = typeCountSpec x k := by
+  intro x hx
+  apply C11_every_node g _ h x
+  rw [subvalues_node, subvaluesList_cons, subvalues_list]
+  exact List.mem_cons_of_mem _ (List.mem_append_left _
+    (List.mem_cons_of_mem _ (mem_subvaluesList_of_mem hx)))
+
+/-- The hypothesis is necessary: an (ill-formed) instance of the field-less class `Lit` that
+carries an `Add(Lit, Lit)` argument is labelled as a terminal, the traversal sees the `Add`. -/
+theorem C11_terminal_args_witness :
+    ¬ ArgsMatchTerminality LabelsEx.g LabelsEx.badProg ∧
+    (relabel LabelsEx.g LabelsEx.badProg).nodes = 0 ∧ nodesSpec LabelsEx.g LabelsEx.badProg = 1 ∧
+    (relabel LabelsEx.g LabelsEx.badProg).weighted = 0 ∧ weightedSpec LabelsEx.g LabelsEx.badProg = 1 ∧
+    lookupCount (relabel LabelsEx.g LabelsEx.badProg).types (.cls 2) = 0 ∧
+      typeCountSpec LabelsEx.badProg (.cls 2) = 1 := by
+  refine ⟨?_, by decide, by decide, by decide, by decide, by decide, by decide⟩
+  intro h
+  have := h 1 0 0 _ (mem_subvalues_self _) (by decide)
+  exact absurd this (by simp)
+
+/-! ### 2. The label `dtt` against the depth of C03 -/
+
+/-- For every value that is not itself a list or tuple (in particular every node) the distance to
+the deepest terminal is at most the depth. -/
+theorem C11_dtt_le_depth (g : Grammar) (v : Val) (hv : childAdj v = 1) :
+    dttSpec g v ≤ v.depth := by
+  have := dttSpec_le_depth g v
+  simp [containerAdj, hv] at this
+  exact this
+
+theorem C11_dtt_le_depth_node (g : Grammar) (c d e : Nat) (args : List Val) :
+    (relabel g (.node c d e args)).dtt ≤ (Val.node c d e args).depth := by
+  rw [C11_dtt_spec]; exact C11_dtt_le_depth g _ rfl
+
+/-- A list or tuple is labelled with the fold over its elements, each counted one edge away, so
+its label may exceed its depth by one (and does: `C11_dtt_list_witness`). -/
+theorem C11_dtt_le_depth_container (g : Grammar) (v : Val) : dttSpec g v ≤ v.depth + 1 := by
+  have := dttSpec_le_depth g v
+  have h : containerAdj v ≤ 1 := by unfold containerAdj; omega
+  omega
+
+theorem C11_dtt_list_witness :
+    dttSpec LabelsEx.g (.list 0 0 [.int 3]) = 1 ∧ (Val.list 0 0 [.int 3]).depth = 0 := by
+  decide
+
+theorem C11_depth_le_dtt_succ (g : Grammar) (v : Val) (h : ArgsMatchTerminality g v) :
+    v.depth ≤ dttSpec g v + 1 :=
+  depth_le_dttSpec g v h
+
+/-! ### Non-vacuity -/
+
+open LabelsEx in
+example : g.reg.nonTerminals = [.cls 2, .cls 3, .cls 4, .cls 0] := by decide
+open LabelsEx in
+example : g.isTerminalCls 1 = true := by decide
+
+/-- `Block([Add(Lit, Lit), Pair((Lit, 3)), Lit])` satisfies the hypothesis -/
+private theorem prog_ok : ArgsMatchTerminality LabelsEx.g LabelsEx.prog := by
+  intro c d e args hm ht
+  simp [LabelsEx.prog, Val.subvalues, Val.subvaluesList] at hm
+  rcases hm with h | h | h | h | h | h <;> first
+    | exact h.2.2.2
+    | (obtain ⟨rfl, -, -, -⟩ := h; exact absurd ht (by decide))
+
+open LabelsEx in
+example : (relabel g prog).nodes = 3 ∧ nodesSpec g prog = 3 ∧
+    (relabel g prog).dtt = 2 ∧ dttSpec g prog = 2 ∧ prog.depth = 3 ∧
+    (relabel g prog).weighted = 4 ∧ weightedSpec g prog = 4 ∧
+    lookupCount (relabel g prog).types (.cls 1) = 4 ∧ typeCountSpec prog (.cls 1) = 4 := by
+  decide
+
+/-- the `Add` inside the list, the `Lit` inside the tuple inside the list, and the list itself -/
+example :
+    let add := Val.node 2 2 0 [.node 1 3 0 [], .node 1 3 0 []]
+    add ∈ LabelsEx.prog.subvalues ∧ (relabel LabelsEx.g add).nodes = 1 ∧
+      (relabel LabelsEx.g add).dtt = 1 ∧ nodesSpec LabelsEx.g add = 1 := by
+  refine ⟨?_, by decide, by decide, by decide⟩
+  simp [LabelsEx.prog, Val.subvalues, Val.subvaluesList]
+
+example := C11_every_node LabelsEx.g LabelsEx.prog prog_ok
+example := C11_depth_le_dtt_succ LabelsEx.g LabelsEx.prog prog_ok
 
 end GEVerif.C11
